@@ -35,6 +35,7 @@ type Contract struct {
 	Assumed   bool
 	MayPanic  bool
 	Wrapping  bool
+	CallsOnce string // assumed callee == one call of this closure-typed parameter
 	GhostSets [][2]Clause // ghost assignments performed at return
 	Allocates bool
 	NonblockingTypes map[string]bool // optional: only sends of these element types are checked
@@ -95,7 +96,7 @@ var pkgClauseRe = regexp.MustCompile(`^package\s+(\w+)`)
 
 var clauseKeywords = map[string]bool{"requires": true, "ensures": true, "modifies": true, "pure": true, "assumed": true,
 	"functype": true, "loop": true, "results": true, "params": true, "maypanic": true, "wrapping": true, "assert": true, "use": true, "allocates": true,
-	"nonblocking": true, "ghostset": true, "before": true, "dead": true, "func": true, "iface": true, "lemma": true, "import": true, "chanvalue": true, "initfact": true, "axiom": true, "ghostfield": true, "uninterp": true, "const": true}
+	"nonblocking": true, "ghostset": true, "callsonce": true, "before": true, "dead": true, "func": true, "iface": true, "lemma": true, "import": true, "chanvalue": true, "initfact": true, "axiom": true, "ghostfield": true, "uninterp": true, "const": true}
 
 // loadContractFile parses one file. defaultPkg is used for keys without package qualifier
 // (the Go package name of the file for in-repo contract files).
@@ -361,6 +362,8 @@ func (ct *ContractTable) loadContractFile(path string) error {
 				}
 			case "wrapping":
 				cur.Wrapping = true
+			case "callsonce":
+				cur.CallsOnce = strings.TrimSpace(rest)
 			case "ghostset":
 				// ghostset <ghost location> = <expr>: performed at every return, before the postconditions
 				eq := strings.Index(rest, " = ")
